@@ -130,6 +130,36 @@ pub fn hook_specs(tier: Tier) -> Vec<Spec> {
             }
         }
     }
+    specs.extend(large_specs());
+    specs
+}
+
+/// Long queues for the hooks whose single decision has only `len`-many outcomes (snapshot versions,
+/// prefix lengths): sizes 5..=12 plus 16 and 33, to cross constants a lookback / batching limit
+/// might use. Every version index / prefix length must be reachable as the first release.
+fn large_specs() -> Vec<Spec> {
+    let mut specs = vec![];
+    let sizes: Vec<usize> = (5..=12).chain([16, 33]).collect();
+    for &n in &sizes {
+        for kind in [Kind::Singleton, Kind::Passthrough, Kind::StreamTotal] {
+            for force in [false, true] {
+                specs.push(Spec { kind, script: Script::Rounds(vec![(flat_arr(n, 0, 1), force)]) });
+            }
+        }
+        // a second, unforced decision after the first release (re-release or any newer version)
+        specs.push(Spec { kind: Kind::Singleton, script: Script::Rounds(vec![(flat_arr(n, 0, 1), true), (vec![], false)]) });
+        if n <= 12 {
+            specs.push(Spec { kind: Kind::StreamTotal, script: Script::Drain(flat_arr(n, 0, 1)) });
+        }
+    }
+    for (n, m) in [(12usize, 1usize), (9, 3), (16, 2), (33, 1)] {
+        let mut arr: Vec<Arr> = (0..n).map(|i| (0u8, 1u32, 1 + i as i64)).collect();
+        arr.extend((0..m).map(|i| (0u8, 2u32, 1 + (n + i) as i64)));
+        for force in [false, true] {
+            specs.push(Spec { kind: Kind::KeyedSingleton, script: Script::Rounds(vec![(arr.clone(), force)]) });
+            specs.push(Spec { kind: Kind::KeyedTotal, script: Script::Rounds(vec![(arr.clone(), force)]) });
+        }
+    }
     specs
 }
 
@@ -384,7 +414,7 @@ pub fn c36_hooks() {
     }
     rep.finish(
         "Every SimHook / SimInlineHook implementor of sim/runtime.rs is built directly (public fields or `new`), fed uniquely numbered items \
-         (flat queues of 0..=4 items quick / 6 thorough; keyed queues over 2-3 keys and one 5-key map; two-sided merges; arrivals in two phases) and driven by bolero's \
+         (flat queues of 0..=4 items quick / 6 thorough, and 5..=12, 16, 33 for the snapshot and ordered-prefix hooks; keyed queues over 2-3 keys and one 5-key map; two-sided merges; arrivals in two phases) and driven by bolero's \
          exhaustive engine through any::scope::borrow_with with the decide-then-release protocol of run_hooks, with force_nontrivial both off and on, as single rounds, \
          drain-to-empty sessions and as 2-3 hooks of one tick resolved by a transcription of run_hooks. Every round of every execution is judged: released+remaining==pending, \
          prefix (ordered) / subset (unordered) per key, snapshot versions never older and unchanged-flags truthful, forced => something new, returned flag and log line truthful. \
